@@ -357,7 +357,7 @@ fn c20(tier: Tier) -> i32 {
         split: Option<Vec<usize>>,
     }
     let mut jobs: Vec<Job> = vec![];
-    let locale_sets: Vec<(Vec<&'static str>, &'static str)> = vec![(vec!["en", "fr"], "en"), (vec!["fr", "en"], "en"), (vec!["fr"], "en"), (vec!["en", "fr", "sr-Cyrl", "zh-Hant-TW"], "en"), (vec!["en", "fr", "ca-valencia", "en-US-posix"], "en")];
+    let locale_sets: Vec<(Vec<&'static str>, &'static str)> = vec![(vec!["en", "fr"], "en"), (vec!["fr", "en"], "en"), (vec!["fr"], "en"), (vec!["en", "fr", "sr-Cyrl", "zh-Hant-TW"], "en"), (vec!["en", "fr", "ca-valencia", "en-US-posix"], "en"), (vec!["en", "en-GB", "fr", "de-AT"], "en")];
     for fam in FAMILIES {
         for pl in PLACEMENTS {
             for namespaced in [false, true] {
@@ -477,6 +477,16 @@ fn c20(tier: Tier) -> i32 {
             for l in &eff {
                 let src = if l == "en" { "en" } else { "fr" };
                 let mut e = files.get(&(ns.clone(), src.to_string())).cloned().unwrap_or_default();
+                if l == "en-GB" {
+                    // a configured locale whose files hold no text of their own (everything left to the default)
+                    p.files.insert((ns.clone(), l.clone()), vec![]);
+                    continue;
+                }
+                if l == "de-AT" {
+                    // .. and one whose only value is a bare variable
+                    p.files.insert((ns.clone(), l.clone()), vec![("pad".into(), s(vec![var("padv")]))]);
+                    continue;
+                }
                 e.push(("pad".into(), st(&format!("[{l}.pad]"))));
                 p.files.insert((ns.clone(), l.clone()), e);
             }
@@ -541,7 +551,7 @@ fn c20(tier: Tier) -> i32 {
     rep.sample(json!({"uses": [["currency", "fk-target"]], "namespaced": true}));
     rep.sample(json!({"uses": [["plural", "surplus-only"], ["list", "range-branch"]], "expect": "list data only"}));
     let mut cov = serde_json::Map::new();
-    cov.insert("rule".into(), json!(format!("families {FAMILIES:?} x placements {PLACEMENTS:?} (the other locale / the default locale holds a non-string literal at the key; none; default locale top level; non-default locale only; subkey depth 2 with the other locale null; inside a range branch; inside a plural form; only as the target of a foreign key from another key/namespace; second namespace only; only in a surplus key the default locale lacks = unreachable): every single placement x namespaced or not x 5 locale sets (default first / last / unlisted, script+region names, names with variant subtags), and pairs of (family, placement) (quick: a quarter, thorough: all); plus ONE variable of one key carrying formatters of several families: every permutation of every subset of <= 3 (thorough 4) of the 6 formatter families x 4 spreads over the locales (all in the default's string; first in the default, rest in the other locale; all in the other locale with the variable plain in the default; inside a subkey with the last only in the other locale) x namespaced or not; plus every way of spreading plural / number / currency / date / list over three namespaces a < b < c or leaving them out (4^5 projects; quick: at most one left out); oracle: characteristic data key of a family (plurals/cardinal@1 for cardinal and plurals/ordinal@1 for ordinal plurals - required by the kind in use, forbidden without any plural -, list/and@1, datetime/timesymbols@1, currency/essentials@1, decimal/symbols@1 for number-or-datetime) requested iff a reachable key uses the family in some locale (model: union over locales of the resolved trees of the default locale's keys); the driver build_datagen_driver() returns holds exactly the derived keys and the configured language identifiers, build_datagen_driver_with_options([o]) for each of the 5 options holds exactly the derived keys plus the option's own; get_locales / get_locales_langids == configured set, get_namespaces == configured list, files_paths complete; distinct_nontrivial = distinct used-family sets")));
+    cov.insert("rule".into(), json!(format!("families {FAMILIES:?} x placements {PLACEMENTS:?} (the other locale / the default locale holds a non-string literal at the key; none; default locale top level; non-default locale only; subkey depth 2 with the other locale null; inside a range branch; inside a plural form; only as the target of a foreign key from another key/namespace; second namespace only; only in a surplus key the default locale lacks = unreachable): every single placement x namespaced or not x 6 locale sets (default first / last / unlisted, script+region names, names with variant subtags, locales whose files hold no literal text), and pairs of (family, placement) (quick: a quarter, thorough: all); plus ONE variable of one key carrying formatters of several families: every permutation of every subset of <= 3 (thorough 4) of the 6 formatter families x 4 spreads over the locales (all in the default's string; first in the default, rest in the other locale; all in the other locale with the variable plain in the default; inside a subkey with the last only in the other locale) x namespaced or not; plus every way of spreading plural / number / currency / date / list over three namespaces a < b < c or leaving them out (4^5 projects; quick: at most one left out); oracle: characteristic data key of a family (plurals/cardinal@1 for cardinal and plurals/ordinal@1 for ordinal plurals - required by the kind in use, forbidden without any plural -, list/and@1, datetime/timesymbols@1, currency/essentials@1, decimal/symbols@1 for number-or-datetime) requested iff a reachable key uses the family in some locale (model: union over locales of the resolved trees of the default locale's keys); the driver build_datagen_driver() returns holds exactly the derived keys and the configured language identifiers, build_datagen_driver_with_options([o]) for each of the 5 options holds exactly the derived keys plus the option's own; get_locales / get_locales_langids == configured set, get_namespaces == configured list, files_paths complete; distinct_nontrivial = distinct used-family sets")));
     cov.insert("exhaustive".into(), json!(tier == Tier::Thorough));
     cov.insert("used_family_sets".into(), json!(*classes.lock().unwrap()));
     let _ = std::fs::remove_dir_all(&root);
@@ -799,7 +809,7 @@ fn c09(tier: Tier) -> i32 {
     rep.nontriv(classes.lock().unwrap().len() as u64 * 10);
     rep.sample(json!({"value_of_k": inputs[inputs.len() / 2].1}));
     let mut cov = serde_json::Map::new();
-    cov.insert("rule".into(), json!("every value of the C09 file pipeline (token strings, range specs, JSON number classes, JSON shapes, foreign-key forms) in a two-locale project through TranslationsInfos::parse_at_dir and, when it loads, every accessor: get_icu_keys, get_locales, get_locales_langids, get_namespaces, get_translations + translations_formatter, write_to_dir, files_paths, build_datagen_driver; oracle: Ok or Err with non-empty message, never a panic; the parser is built with its `quote` feature as in a user's host build"));
+    cov.insert("rule".into(), json!("every value of the C09 file pipeline (token strings, character-class edges, range specs, JSON number classes, JSON shapes, foreign-key forms) in a two-locale project through TranslationsInfos::parse_at_dir and, when it loads, every accessor: get_icu_keys, get_locales, get_locales_langids, get_namespaces, get_translations + translations_formatter, write_to_dir, files_paths, build_datagen_driver; oracle: Ok or Err with non-empty message, never a panic; the parser is built with its `quote` feature as in a user's host build"));
     cov.insert("exhaustive".into(), json!(true));
     cov.insert("outcome_classes".into(), json!(*classes.lock().unwrap()));
     let _ = std::fs::remove_dir_all(&root);
